@@ -13,7 +13,7 @@ LAKE_TARGETS = ['Pysmi.Props.C16', 'Pysmi.Pins.SkelC16']
 THEOREMS = ['Pysmi.Pins.SkelC16.pin_intermediateGenImports', 'Pysmi.Pins.SkelC16.pin_symtableGenImports', 'Pysmi.Pins.SkelC16.pin_genTrapType', 'Pysmi.Imports.C16_converted_absent', 'Pysmi.Imports.C16_converted_present', 'Pysmi.Imports.C16_others_kept',
             'Pysmi.Imports.C16_convert_idempotent', 'Pysmi.Imports.symbolsOf_convert',
             'Pysmi.Generated.Smiv1.C16_targets_final', 'Pysmi.Generated.Smiv1.C16_targets_not_smiv1',
-            'Pysmi.Generated.Smiv1.C16_every_v1_symbol_has_home', 'Pysmi.Generated.Smiv1.C16_type_map', 'Pysmi.Oid.C16_trap_oid']
+            'Pysmi.Generated.Smiv1.C16_every_v1_symbol_has_home', 'Pysmi.Generated.Smiv1.C16_rfc1158_groups_home', 'Pysmi.Generated.Smiv1.C16_type_map', 'Pysmi.Oid.C16_trap_oid']
 TECHNIQUE = ('Lean 4 theorems about a model of the import rewriting of both generators (for every import dict: converted symbols leave '
              'their SMIv1 module, their replacements are imported, other imports stay, a second pass changes nothing) under a table '
              'condition decided by the kernel on convertImportv2 regenerated from the source; kernel-decided facts about the regenerated '
@@ -37,6 +37,10 @@ JSON_TYPE_MAP = {}      # (was a tolerance for the SMIv1 spellings Counter / Gau
 RFC1213_IP_SCALARS = ['ipForwarding', 'ipDefaultTTL', 'ipInReceives', 'ipInHdrErrors', 'ipInAddrErrors', 'ipForwDatagrams', 'ipInUnknownProtos',
                       'ipInDiscards', 'ipInDelivers', 'ipOutRequests', 'ipOutDiscards', 'ipOutNoRoutes', 'ipReasmTimeout', 'ipReasmReqds', 'ipReasmOKs',
                       'ipReasmFails', 'ipFragOKs', 'ipFragFails', 'ipFragCreates', 'ipRoutingDiscards']
+# likewise from the RFCs: objects of RFC 1158 (first edition of MIB-II) that RFC 1213 defines under the same name and OID and that no SMIv2
+# module took over - the address translation group, the egp group and its table
+RFC1158_IN_RFC1213 = ['at', 'atTable', 'atEntry', 'atIfIndex', 'atPhysAddress', 'atNetAddress', 'egp', 'egpInMsgs', 'egpInErrors', 'egpOutMsgs',
+                      'egpOutErrors', 'egpNeighTable', 'egpNeighEntry', 'egpNeighState', 'egpNeighAddr', 'egpAs']
 SKIP_CALLS = ('setStatus', 'setDescription', 'setReference', 'setUnits')
 
 
@@ -209,6 +213,14 @@ def run(ctx):
         if em.get('IP-MIB') != [sym] or 'RFC1213-MIB' in em:        # (the generators add their constant imports)
             res.oracle_failures.append({'key': 'v2-home-missing', 'what': '%s imported from RFC1213-MIB comes out as %r; its SMIv2 home is IP-MIB' % (sym, em),
                                         'input': {'imports': {'RFC1213-MIB': [sym]}, 'expect_home': {'IP-MIB': [sym]}}})
+    for sym in RFC1158_IN_RFC1213:
+        res.case(('rfc1158-1213', sym), True)
+        res.count('rfc1158-in-rfc1213')
+        out, mods = IntermediateCodeGen().genImports({'RFC1158-MIB': [sym]})
+        em = {k: list(v) for k, v in out['imports'].items() if k != 'class'}
+        if em.get('RFC1213-MIB') != [sym] or 'RFC1158-MIB' in em:
+            res.oracle_failures.append({'key': 'v2-home-missing', 'what': '%s imported from RFC1158-MIB comes out as %r; RFC1213-MIB defines it' % (sym, em),
+                                        'input': {'imports': {'RFC1158-MIB': [sym]}, 'expect_home': {'RFC1213-MIB': [sym]}}})
     dicts = []
     for m, syms in table.items():
         for s in syms:
